@@ -291,7 +291,7 @@ func genC01(thorough bool) func(t *rapid.T) Case {
 		c.Layout = genLayout(t, "layout")
 		c.Seeds = []uint64{rapid.Uint64().Draw(t, "s1"), rapid.Uint64().Draw(t, "s2"), rapid.Uint64().Draw(t, "s3")}
 		c.CLI = rapid.IntRange(0, 3).Draw(t, "cli") == 3
-		c.Prelude = rapid.SampledFrom([]string{"", "", "low-limit", "cycle"}).Draw(t, "prelude")
+		c.Prelude = rapid.SampledFrom([]string{"", "", "low-limit", "cycle", "shallow-twin", "deep-twin"}).Draw(t, "prelude")
 		return c
 	}
 }
@@ -304,6 +304,29 @@ func runPrelude(kind, text string, maxDepth int, entry string, plan OrderPlan, o
 		resolveText(text, nil, 1, entry, plan, ob)
 	case "cycle":
 		resolveText(text+"\nzz/loop:\n  zz/loop: 1\n", nil, maxDepth, entry, plan, ob)
+	case "shallow-twin", "deep-twin":
+		// a different book under the same recipe names (every recipe one level deep, or all of them
+		// in one chain) plus a cycle, so that it fails after most recipes are finished: whatever the
+		// process remembers about these names is wrong for the book that is resolved next
+		db, err := parseBook(text)
+		if err != nil {
+			return
+		}
+		names := make([]string, 0, len(db))
+		for n := range db {
+			names = append(names, n)
+		}
+		sort.Strings(names)
+		var b strings.Builder
+		for i, n := range names {
+			next := "kcal"
+			if kind == "deep-twin" && i+1 < len(names) {
+				next = names[i+1]
+			}
+			fmt.Fprintf(&b, "%s:\n  %s: 1\n", n, next)
+		}
+		b.WriteString("zz/loop:\n  zz/loop: 1\n")
+		resolveText(b.String(), nil, maxDepth+len(names)+1, entry, plan, ob)
 	}
 }
 
@@ -559,7 +582,7 @@ func genC11(thorough bool) func(t *rapid.T) Case {
 		c.Book = genBook(t, bo)
 		c.Seeds = []uint64{rapid.Uint64().Draw(t, "s1"), rapid.Uint64().Draw(t, "s2"), rapid.Uint64().Draw(t, "s3"), rapid.Uint64().Draw(t, "s4")}
 		c.CLI = rapid.IntRange(0, 3).Draw(t, "cli") == 3
-		c.Prelude = rapid.SampledFrom([]string{"", "", "low-limit", "cycle"}).Draw(t, "prelude")
+		c.Prelude = rapid.SampledFrom([]string{"", "", "low-limit", "cycle", "shallow-twin", "deep-twin"}).Draw(t, "prelude")
 		return c
 	}
 }
